@@ -43,11 +43,27 @@ Accepted subset, common part (anything else raises TranslateError, file:line):
               A local dict with constant string keys built by a literal and
               d[key] = e is kept as one variable per key (d_key); `return d`
               yields the tuple of its fields in the order the kernel fixes.
+              A None sentinel: `x = None`, `x = e` (stored as Some e while x may
+              still be None), `if x is None: .. else: ..` / `is not None` (a match;
+              in the not-None branch and after `if x is None: x = e` x is the
+              value itself).  The joined variables of a conditional may change
+              their type if both branches agree.
   expressions names; constants; the kernel-specific forms listed below;
-              comparisons of two naturals; `not`, `and`, `or` in conditions
-              (truth value of an int: non-zero; of a string or list: non-empty).
+              comparisons of two naturals, also chained (a <= b <= c is
+              (a <= b) and (b <= c): operands are pure); `not`, `and`, `or` in
+              conditions and as boolean values (truth value of an int: non-zero;
+              of a string or list: non-empty).
+              Comprehensions with one `for` clause and no side effects:
+              [e for p in l if c] is map (fun p => e) (filter (fun p => c) l);
+              all(c for p in l) / any(..) is forallb / existsb (short-circuit
+              evaluation of pure tests changes nothing); p is a name or a pair of
+              names for pair-valued elements, local to the comprehension.
   ints        are naturals: only constants >= 0, +, comparison and `e - 1`
               (TRUNCATED at 0; Python gives -1 there - see "not modelled").
+  signatures  every generated definition of a kernel takes the whole context of
+              the kernel (operations, oracles, "undefined" values) as explicit
+              parameters, used or not: its type does not depend on the spelling
+              of the current source.
 
   walk:  1.0 and 0 (as a probability: `x = 0` followed by `x += <probability>`
          makes x a probability, int 0 + float being exact); random.random() as the
@@ -55,8 +71,9 @@ Accepted subset, common part (anything else raises TranslateError, file:line):
          list `rnd`, consumed from the front); self.base (iterated, or
          self.base[-1]); item['prob'], item['replacements'] on an entry of
          self.base; (a, b) and e[0], e[1] on (variable, index) pairs;
-         len(self.grammar[t]); self.grammar[t][i]['prob'];
-         len(self.grammar[t][i]['values']); probability * int (the int is
+         self.grammar[t] (the groups of a variable, also bound to a local and
+         enumerated), len(..) of it, ..[i] (a group), group['prob'],
+         len(group['values']); probability * int (the int is
          converted, `ofnat`), + and the comparisons <=, >= (leb) and <, > (ltb)
          on probabilities; self._find_prob(pt, p) as an uninterpreted function
          `find_prob` (it is translated and tied to the model separately, in
@@ -76,7 +93,9 @@ Accepted subset, common part (anything else raises TranslateError, file:line):
          oracle); x[0] on a string (a one-character string), x[1:]; int(s)
          (EditRules.int_of; ValueError becomes the result `Raise`, accepted in
          `x += int(..)` / `x = int(..)` only); ''.join(l); + on strings and on
-         ints; ==, != between strings; `in` / `not in` with a list of strings;
+         ints; f-strings whose parts are constants and {s} / {s!s} of strings
+         (their concatenation); ==, != between strings; `in` / `not in` with a
+         list of strings, also a literal tuple / list of string constants;
          config.get('key') for the keys of the model's config record
          (min_length, max_length: ints; terminal_set: a list of strings or False,
          SmallRt.cfg_list; regex: a list of strings, absent = empty); calls of the
@@ -85,12 +104,13 @@ Accepted subset, common part (anything else raises TranslateError, file:line):
          re.findall(.., line)) unless a loop or a conditional carries it.  Of edit_rules only the
          statements from the first to the last `if config.get(...): grammar =
          f(grammar, ...)` are translated (the filter passes); the statements
-         before (copy, open/read) and after (write back) are file I/O, which the
+         before (copy, open/read - `grammar = open(..).read()` or the same inside
+         `with open(..) as f:`) and after (write back) are file I/O, which the
          correspondence of C20 exercises and the translator does not look at.
 
 What the translation does NOT model: exceptions other than int('') (a subscript
 out of range is the total `sub undef l i`, with `undef` a parameter of the
-generated section; s.split(c)[1] of a line without c likewise); negative ints
+generated definitions; s.split(c)[1] of a line without c likewise); negative ints
 (`max_index - 1` for a variable without groups); object identity (mutation is
 accepted on fresh local objects only); printing; the int -> float conversion in
 `float * int` (the model's `ofnat`); the equality of int and float arithmetic for
@@ -113,6 +133,7 @@ from translate_kernel import TranslateError, _paren, _close, _comment  # noqa: E
 NAT, BOOL, UNIT = "nat", "bool", "unit"
 # walk
 T, NODE, PT, VARS, HBASE, HBASES, WALK = "T", "node", "pt", "vars", "hbase", "hbases", "walk"
+GROUP, GROUPS = "group", "groups"
 # probs
 NUM, KEY, PAIR, CNT = "num", "key", "pair", "counter"
 # edit
@@ -122,11 +143,11 @@ RESERVED_COMMON = set("""rnd st fuel tt true false fst snd length sub set_nth ap
 O S pred fun let in if then else match with end forall exists Type Prop Set as at return fix cofix struct where
 Definition Fixpoint Section End Nat N Some None option hd tl last concat skipn map rev app
 Cont Brk Ret ctl3 loop_from for_each for_enum for_range for_enum_cur draw drawn split_on strip lstrip char0 s_eqb s_in
-list_eqb nonempty hrow py_values py_sum negb andb orb""".split())
+list_eqb nonempty hrow py_values py_sum negb andb orb forallb existsb filter""".split())
 
 
 # builtins the translated functions call: a rebinding anywhere in the module is refused
-BUILTINS_USED = {"print", "int", "len", "sum", "enumerate", "range"}
+BUILTINS_USED = {"print", "int", "len", "sum", "enumerate", "range", "all", "any", "str"}
 
 
 class Env:
@@ -166,6 +187,7 @@ class Tr:
     def __init__(self, path, rel, owner, fn, spec, done):
         self.path, self.rel, self.owner, self.fn, self.spec, self.done = path, rel, owner, fn, spec, done
         self.promote = set()      # walk: int variables that hold a probability (x = 0; x += p)
+        self.opt_elem = {}        # None-sentinel variables -> type of the value they hold otherwise
         self.pending = []         # partial computations of the statement being translated
         self.uid = 0
 
@@ -317,10 +339,81 @@ class Tr:
                 return "%s - 1" % _paren(a), NAT
             return self.arith(e, a, ta, b, tb)
         if isinstance(e, ast.Compare):
-            if len(e.ops) != 1 or len(e.comparators) != 1:
-                self.fail(e, "chained comparison")
-            return self.compare(e, env)
+            if len(e.ops) != len(e.comparators) or not e.ops:
+                self.fail(e, "malformed comparison")
+            if len(e.ops) == 1:
+                return self.compare(e, env)
+            # a OP b OP c  is  (a OP b) and (b OP c); operands are pure, evaluating b twice changes nothing
+            parts, left = [], e.left
+            for op, right in zip(e.ops, e.comparators):
+                link = ast.copy_location(ast.Compare(left=left, ops=[op], comparators=[right]), e)
+                t, ty = self.compare(link, env)
+                if ty != BOOL:
+                    self.fail(e, "chained comparison of non-booleans")
+                parts.append(_paren(t))
+                left = right
+            return " && ".join(parts), BOOL
+        if isinstance(e, ast.ListComp):
+            binder, inner, lst = self.comprehension(e, env)
+            t, ty = self.expr(e.elt, inner)
+            if self.pending:
+                self.fail(e, "partial computation inside a comprehension")
+            return "map (fun %s => %s) %s" % (binder, t, _paren(lst)), self.list_type_of(e, ty)
+        if isinstance(e, ast.Call) and isinstance(e.func, ast.Name) and e.func.id in ("all", "any") \
+                and len(e.args) == 1 and not e.keywords and isinstance(e.args[0], (ast.GeneratorExp, ast.ListComp)):
+            binder, inner, lst = self.comprehension(e.args[0], env)
+            c = self.cond(e.args[0].elt, inner)
+            if self.pending:
+                self.fail(e, "partial computation inside a comprehension")
+            return "%s (fun %s => %s) %s" % ("forallb" if e.func.id == "all" else "existsb", binder, c, _paren(lst)), BOOL
         self.fail(e, "unsupported expression (%s)" % type(e).__name__)
+
+    def comprehension(self, node, env):
+        """[.. for pat in l if c ..] / (.. for pat in l if c ..) with one generator, no side effects:
+        -> (binder of the element function, environment inside it, text of the (filtered) list).
+        The binder is local to the comprehension, as in Python 3."""
+        if len(node.generators) != 1 or node.generators[0].is_async:
+            self.fail(node, "only one plain `for` clause is supported in a comprehension")
+        g = node.generators[0]
+        if self.pending:
+            self.fail(node, "internal: pending partial computation")
+        l, tl = self.expr(g.iter, env)
+        ety = self.elem_type(node, tl)
+        inner = env.copy()
+        binder = self.bind_pattern(g.target, ety, inner)
+        lst = l
+        for c in g.ifs:
+            lst = "filter (fun %s => %s) %s" % (binder, self.cond(c, inner), _paren(lst))
+        if self.pending:
+            self.fail(node, "partial computation inside a comprehension")
+        return binder, inner, lst
+
+    def bind_pattern(self, target, ety, inner):
+        """loop / comprehension target: a name, or a tuple of names for a pair-valued element"""
+        if isinstance(target, ast.Name):
+            self.check_name(target, target.id)
+            if target.id in inner.recs:
+                self.fail(target, "a local dict is rebound")
+            inner.types[target.id] = ety
+            inner.fresh.discard(target.id)
+            return target.id
+        if isinstance(target, ast.Tuple) and len(target.elts) == 2 and all(isinstance(x, ast.Name) for x in target.elts) \
+                and target.elts[0].id != target.elts[1].id:
+            tys = self.pair_types(target, ety)
+            for x, ty in zip(target.elts, tys):
+                self.check_name(x, x.id)
+                if x.id in inner.recs:
+                    self.fail(x, "a local dict is rebound")
+                inner.types[x.id] = ty
+                inner.fresh.discard(x.id)
+            return "'(%s, %s)" % (target.elts[0].id, target.elts[1].id)
+        self.fail(target, "unsupported comprehension / loop target")
+
+    def pair_types(self, node, ety):
+        self.fail(node, "an element of type %s cannot be unpacked" % ety)
+
+    def list_type_of(self, node, ety):
+        self.fail(node, "no list type for elements of type %s" % ety)
 
     def arith(self, e, a, ta, b, tb):
         self.fail(e, "unsupported arithmetic")
@@ -390,8 +483,8 @@ class Tr:
                 elif isinstance(n, ast.For):
                     target(n.target)
                 elif isinstance(n, (ast.NamedExpr, ast.Delete, ast.Global, ast.Nonlocal, ast.With, ast.Import,
-                                    ast.ImportFrom, ast.FunctionDef, ast.ClassDef, ast.Lambda, ast.ListComp,
-                                    ast.SetComp, ast.DictComp, ast.GeneratorExp, ast.Try, ast.While, ast.Raise,
+                                    ast.ImportFrom, ast.FunctionDef, ast.ClassDef, ast.Lambda,
+                                    ast.SetComp, ast.DictComp, ast.Try, ast.While, ast.Raise,
                                     ast.Assert, ast.Yield, ast.YieldFrom, ast.Await, ast.AsyncFor, ast.AsyncWith,
                                     ast.Starred)):
                     self.fail(n, "unsupported construct")
@@ -611,6 +704,15 @@ class Tr:
             if t.id in env.recs:
                 self.fail(s, "a local dict is rebound")
             text, ty, fresh = self.rhs(s, env)
+            cur = env.types.get(t.id, "")
+            if cur.startswith("opt:") and not ty.startswith(("opt:", "none:")):
+                # a value stored in a None-sentinel variable
+                if cur == "opt:?":
+                    self.opt_elem[t.id] = ty
+                    raise Retry()
+                if cur[4:] != ty:
+                    self.fail(s, "%r holds None or a %s, and is assigned a %s" % (t.id, cur[4:], ty))
+                text, ty, fresh = "Some %s" % _paren(text), cur, False
             self.escape(s.value, env)
             self.bind(s, t.id, ty, env)
             if fresh:
@@ -624,8 +726,18 @@ class Tr:
         if isinstance(v, ast.Constant) and v.value == 0 and type(v.value) is int \
                 and isinstance(s.targets[0], ast.Name) and s.targets[0].id in self.promote:
             return "zero", T, False
+        if isinstance(v, ast.Constant) and v.value is None and isinstance(s.targets[0], ast.Name):
+            # x = None: a sentinel; its element type is the type of the value assigned to it elsewhere
+            name = s.targets[0].id
+            cur = env.types.get(name, "")
+            elem = self.opt_elem.get(name) or (cur[4:] if cur.startswith("opt:") and cur != "opt:?" else None)
+            if elem is None:
+                return "None", "opt:?", False
+            if elem not in self.COQ_TYPE:
+                self.fail(s, "no Coq type for a sentinel of %s" % elem)
+            return "@None %s" % _paren(self.COQ_TYPE[elem]), "opt:" + elem, False
         text, ty = self.expr(v, env)
-        return text, ty, self.is_fresh_value(v)
+        return text, ty, self.is_fresh_value(v) or isinstance(v, ast.ListComp)
 
     def is_fresh_value(self, v):
         return False
@@ -658,17 +770,52 @@ class Tr:
                 self.fail(s, "append of a %s to a %s" % (tv, env.types[lst]))
             self.escape(c.args[0], env)
             return self.line(ind, "let %s := append %s %s in" % (lst, lst, _paren(v)), s)
+        # l.extend(m) on a fresh local list, m a list of the same type (its items are copied: no aliasing)
+        if isinstance(c, ast.Call) and isinstance(c.func, ast.Attribute) and c.func.attr == "extend" \
+                and len(c.args) == 1 and not c.keywords:
+            lst = self.list_var(c.func.value, env)
+            if lst is None or lst not in env.fresh:
+                self.fail(s, "extend is supported on a fresh local list only")
+            v, tv = self.expr(c.args[0], env)
+            if tv != env.types[lst]:
+                self.fail(s, "extend of a %s by a %s" % (env.types[lst], tv))
+            return self.line(ind, "let %s := %s ++ %s in" % (lst, lst, _paren(v)), s)
         self.fail(s, "unsupported expression statement")
 
     # ----- conditionals
+    def none_test(self, test, env):
+        """`x is None` / `x is not None` on a None-sentinel variable -> (x, the then-branch is the None case)"""
+        if isinstance(test, ast.Compare) and len(test.ops) == 1 and isinstance(test.ops[0], (ast.Is, ast.IsNot)):
+            c = test.comparators[0]
+            if not (isinstance(c, ast.Constant) and c.value is None and isinstance(test.left, ast.Name)):
+                self.fail(test, "`is` is supported as `x is None` / `x is not None` only")
+            ty = env.types.get(test.left.id, "")
+            if not ty.startswith("opt:") or ty == "opt:?":
+                self.fail(test, "`is None` test of %r, which is not a None sentinel that is assigned a value somewhere"
+                          % test.left.id)
+            return test.left.id, isinstance(test.ops[0], ast.Is)
+        return None
+
     def if_(self, s, rest, env, k, ind):
-        c = self.cond(s.test, env)
-        if self.pending:
-            self.fail(s, "partial computation in a condition")
         body, orelse = list(s.body), list(s.orelse)
         bt, et = self.terminates(body), self.terminates(orelse)
         env_t, env_f = env.copy(), env.copy()
-        head = self.line(ind, "if %s then" % c, s)
+        nt = self.none_test(s.test, env)
+        if nt is not None:
+            # x = None ... if x is None: A else: B   is   match x with None => A | Some x => B end
+            x, then_is_none = nt
+            elem = env.types[x][4:]
+            (env_t if then_is_none else env_f).types[x] = "none:" + elem
+            (env_f if then_is_none else env_t).types[x] = elem
+            if then_is_none:
+                c, mid, tail = "match %s with None =>" % x, "| Some %s =>" % x, " end"
+            else:
+                c, mid, tail = "match %s with Some %s =>" % (x, x), "| None =>", " end"
+        else:
+            c, mid, tail = "if %s then" % self.cond(s.test, env), "else", ""
+        if self.pending:
+            self.fail(s, "partial computation in a condition")
+        head = self.line(ind, c, s)
         if not rest or bt or et:
             if rest and bt and et:
                 self.fail(rest[0], "unreachable statement")
@@ -678,8 +825,9 @@ class Tr:
                 # both sides fall to the end of the enclosing block with the variables it carries
                 for e2 in (env_t, env_f):
                     e2.carried = e2.carried | {n for n in self.assigned(body + orelse) if n in env.types}
-            return (head + self.block(then_stmts, env_t, k, ind + 1)
-                    + self.line(ind, "else") + self.block(else_stmts, env_f, k, ind + (0 if bt else 1)))
+            out = (head + self.block(then_stmts, env_t, k, ind + 1)
+                   + self.line(ind, mid) + self.block(else_stmts, env_f, k, ind + (0 if bt and not tail else 1)))
+            return _close(out, tail) if tail else out
         # both branches fall through to `rest`: they may only (re)bind variables
         for n in body + orelse:
             for m in ast.walk(n):
@@ -689,8 +837,8 @@ class Tr:
         if not names:
             self.fail(s, "conditional without effect")
         tup, pat = self.state_text(names)
-        for e2 in (env_t, env_f):
-            e2.carried = e2.carried | set(names)
+        # (the joined variables may change their type inside the branches as long as both sides agree at the
+        # join - join_types; variables carried by an enclosing loop stay in `carried`)
 
         def no(what):
             return lambda n, *a: self.fail(n, what + " inside a conditional that is followed by more statements")
@@ -702,24 +850,34 @@ class Tr:
         join = K(lambda _n: tup, no("continue"), no("break"), no("return"), rais)
         saved = (env_t.copy(), env_f.copy())
         out = self.line(ind, "let %s :=" % pat)
-        out += self.line(ind + 1, "(if %s then" % c, s)
+        out += self.line(ind + 1, "(" + c, s)
         out += self.block(body, env_t, join, ind + 2)
-        out += self.line(ind + 1, "else")
-        out += _close(self.block(orelse, env_f, join, ind + 2), ") in")
+        out += self.line(ind + 1, mid)
+        out += _close(self.block(orelse, env_f, join, ind + 2), tail + ") in")
         if raised:
             # a branch can raise: the joined value is a `res`, matched before what follows
             env_t, env_f = saved
             join = K(lambda _n: "Ok %s" % _paren(tup), no("continue"), no("break"), no("return"), lambda n: "Raise")
             out = self.line(ind, "match")
-            out += self.line(ind + 1, "(if %s then" % c, s)
+            out += self.line(ind + 1, "(" + c, s)
             out += self.block(body, env_t, join, ind + 2)
-            out += self.line(ind + 1, "else")
-            out += _close(self.block(orelse, env_f, join, ind + 2), ")")
+            out += self.line(ind + 1, mid)
+            out += _close(self.block(orelse, env_f, join, ind + 2), tail + ")")
             out += self.line(ind, "with Raise => %s | Ok %s =>" % (k.rais(s), pat.lstrip("'")))
             self.merge(s, env, [env_t, env_f])
+            self.join_types(s, env, names, env_t, env_f)
             return _close(out + self.block(rest, env, k, ind), " end")
         self.merge(s, env, [env_t, env_f])
+        self.join_types(s, env, names, env_t, env_f)
         return out + self.block(rest, env, k, ind)
+
+    def join_types(self, node, env, names, env_t, env_f):
+        """after a conditional that is followed by more statements: the type of each joined variable"""
+        for n in names:
+            t1, t2 = env_t.types.get(n), env_f.types.get(n)
+            if t1 != t2 or t1 is None:
+                self.fail(node, "%r has type %s on one side of the conditional and %s on the other" % (n, t1, t2))
+            env.types[n] = t1
 
     def merge(self, node, env, inners):
         for inner in inners:
@@ -853,6 +1011,11 @@ class Tr:
         return text
 
     extra_params = []       # variables bound before the translated statements (a slice of a function)
+    # the context every generated definition of the kernel takes, whether it uses it or not (operations,
+    # oracles, "undefined" values): explicit parameters, so that the signature of a generated function does
+    # not depend on which of them the current source happens to use
+    CTX_BINDERS = ""
+    CTX_ARGS = ""
 
     def params_text(self):
         return " ".join("(%s : %s)" % (n, self.COQ_TYPE[ty]) for n, ty in list(self.spec["params"]) + list(self.extra_params))
@@ -895,7 +1058,8 @@ class Tr:
             self.rel, self.owner and ("class %s  " % self.owner.rstrip(".")), fn.name,
             stmts[0].lineno if stmts else fn.lineno, stmts[-1].end_lineno if stmts else fn.end_lineno, sha,
             ("\n   " + spec["note"]) if spec.get("note") else "")
-        out += "Definition %s %s : %s :=\n" % (spec["coq"], self.params_text(), self.result_type())
+        out += "Definition %s %s : %s :=\n" % (
+            spec["coq"], (self.CTX_BINDERS + " " + self.params_text()).strip(), self.result_type())
         out += _close(self.translate_body(stmts), ".")
         return out
 
@@ -905,6 +1069,7 @@ class WalkTr(Tr):
     KERNEL = "walk"
     COQ_TYPE = dict(Tr.COQ_TYPE, **{T: "T", NODE: "(nat * nat)", PT: "list (nat * nat)", VARS: "list nat",
                                     HBASE: "(T * list nat)", HBASES: "list (T * list nat)",
+                                    GROUP: "(T * nat)", GROUPS: "list (T * nat)",
                                     WALK: "(list (nat * nat) * T * T)"})
     RESERVED = RESERVED_COMMON | set("T g zero one add mul leb ltb ofnat find_prob hbases htable hgrammar Honey".split())
     REC_KEYS = {"pt": (PT, 0), "base_prob": (T, 1), "prob": (T, 2)}
@@ -919,10 +1084,20 @@ class WalkTr(Tr):
         self.fail(self.fn, "no empty literal of type %s" % ty)
 
     def elem_type(self, node, ty):
-        table = {PT: NODE, VARS: NAT, HBASES: HBASE}
+        table = {PT: NODE, VARS: NAT, HBASES: HBASE, GROUPS: GROUP}
         if ty not in table:
             self.fail(node, "iteration / item access on a %s" % ty)
         return table[ty]
+
+    def pair_types(self, node, ety):
+        if ety == NODE:        # a (variable, index) tuple; entries of self.base / self.grammar are dicts
+            return (NAT, NAT)
+        self.fail(node, "an element of type %s cannot be unpacked" % ety)
+
+    def list_type_of(self, node, ety):
+        if ety == NODE:
+            return PT
+        self.fail(node, "no list type for elements of type %s" % ety)
 
     def undef_of(self, node, ty):
         if ty == NODE:
@@ -1010,14 +1185,10 @@ class WalkTr(Tr):
             lst = self.list_var(e, env)
             if lst is not None and isinstance(e.value, ast.Name) and e.value.id in env.recs:
                 return lst, env.types[lst]
-            # self.grammar[t][i]['prob']
-            if isinstance(e.slice, ast.Constant) and e.slice.value == "prob":
-                grp = self.grammar_group(e.value, env)
-                if grp is not None:
-                    return "fst (%s)" % grp, T
-            if self.grammar_row(e, env) is not None or self.grammar_group(e, env) is not None:
-                self.fail(e, "self.grammar may only be used as self.grammar[t][i]['prob'], "
-                             "len(self.grammar[t][i]['values']) and len(self.grammar[t])")
+            # self.grammar[t]: the groups of a variable, as the sampler model has them (probability, size)
+            row = self.grammar_row(e, env)
+            if row is not None:
+                return row, GROUPS
             # self.base[-1]
             if self.is_self_attr(e.value, "base"):
                 sl = e.slice
@@ -1027,10 +1198,20 @@ class WalkTr(Tr):
                 self.fail(e, "self.base may only be iterated or used as self.base[-1]")
             v, tv = self.expr(e.value, env)
             if isinstance(e.slice, ast.Constant) and type(e.slice.value) is str:
-                field = {"prob": ("fst", T), "replacements": ("snd", VARS)}.get(e.slice.value) if tv == HBASE else None
+                field = None
+                if tv == HBASE:
+                    field = {"prob": ("fst", T), "replacements": ("snd", VARS)}.get(e.slice.value)
+                elif tv == GROUP:
+                    # group['values'] itself is not represented (only its length: len(group['values']))
+                    field = {"prob": ("fst", T)}.get(e.slice.value)
                 if field is None:
                     self.fail(e, "unsupported string subscript")
                 return "%s %s" % (field[0], _paren(v)), field[1]
+            if tv == GROUPS:
+                i, ti = self.expr(e.slice, env)
+                if ti != NAT:
+                    self.fail(e, "group index must be an int")
+                return "sub undef_group %s %s" % (_paren(v), _paren(i)), GROUP
             if tv == NODE:
                 if isinstance(e.slice, ast.Constant) and e.slice.value in (0, 1) and type(e.slice.value) is int:
                     return "%s %s" % ("fst" if e.slice.value == 0 else "snd", _paren(v)), NAT
@@ -1040,15 +1221,13 @@ class WalkTr(Tr):
             f = e.func
             if isinstance(f, ast.Name) and f.id == "len" and len(e.args) == 1 and not e.keywords:
                 a = e.args[0]
-                row = self.grammar_row(a, env)
-                if row is not None:
-                    return "length (%s)" % row, NAT
                 if isinstance(a, ast.Subscript) and isinstance(a.slice, ast.Constant) and a.slice.value == "values":
-                    grp = self.grammar_group(a.value, env)
-                    if grp is not None:
-                        return "snd (%s)" % grp, NAT
+                    grp, tg = self.expr(a.value, env)
+                    if tg != GROUP:
+                        self.fail(e, "len(x['values']) of a %s" % tg)
+                    return "snd %s" % _paren(grp), NAT
                 v, tv = self.expr(a, env)
-                if tv not in (PT, VARS):
+                if tv not in (PT, VARS, GROUPS):
                     self.fail(e, "len of a value of type %s" % tv)
                 return "length %s" % _paren(v), NAT
             if self.is_self_attr(f, "_find_prob") and len(e.args) == 2 and not e.keywords:
@@ -1057,7 +1236,7 @@ class WalkTr(Tr):
                 if (ta, tb) != (PT, T):
                     self.fail(e, "_find_prob(%s, %s)" % (ta, tb))
                 return "find_prob %s %s" % (_paren(a), _paren(b)), T
-            self.fail(e, "unsupported call")
+            return self.common_expr(e, env)     # all(..) / any(..) over a generator, else refused there
         return self.common_expr(e, env)
 
     def add_op(self, node, a, ta, b, tb):
@@ -1100,14 +1279,18 @@ From Coq Require Import List Arith Bool.
 From Pcfg Require Import KernelRt SmallRt Honey.
 Import ListNotations.
 
-Section Walk.
-Context {T : Type} (zero one : T) (add mul : T -> T -> T) (leb ltb : T -> T -> bool) (ofnat : nat -> T).
-(* self._find_prob (translated and tied separately, gen/Kernel_gen.v): uninterpreted here *)
-Context (find_prob : list (nat * nat) -> T -> T).
-(* the value of a subscript that raises in Python / of a draw from an exhausted list *)
-Context (undef_draw : T) (undef_node : nat * nat) (undef_group : T * nat) (undef_base : T * list nat).
+(* Parameters of the generated definition (all explicit, used or not, so that its signature
+   does not depend on the current source):
+     T, zero one add mul leb ltb ofnat   the number type and its operations
+     find_prob      self._find_prob (translated and tied separately, gen/Kernel_gen.v): uninterpreted here
+     undef_draw undef_node undef_group undef_base
+                    the value of a subscript that raises in Python / of a draw from an exhausted list *)
 
 """
+WALK_CTX_BINDERS = ("{T : Type} (zero one : T) (add mul : T -> T -> T) (leb ltb : T -> T -> bool) (ofnat : nat -> T) "
+                    "(find_prob : list (nat * nat) -> T -> T) "
+                    "(undef_draw : T) (undef_node : nat * nat) (undef_group : T * nat) (undef_base : T * list nat)")
+WalkTr.CTX_BINDERS = WALK_CTX_BINDERS
 
 
 def render_walk(repo=None):
@@ -1123,7 +1306,7 @@ def render_walk(repo=None):
     if fn is None:
         raise TranslateError("%s: PcfgGrammar.random_walk not found" % path)
     text = WalkTr(path, rel, "PcfgGrammar.", fn, spec, {}).translate()
-    return WALK_HEAD % rel + text + "\nEnd Walk.\n"
+    return WALK_HEAD % rel + text
 
 
 # ====================================================================== edit
@@ -1143,8 +1326,10 @@ def str_lit(v):
 class EditTr(Tr):
     KERNEL = "edit"
     COQ_TYPE = dict(Tr.COQ_TYPE, **{STR: "str", STRS: "list str", RES: "res str", CFG: "EditRules.config"})
+    # names the generated text itself refers to (a Python local of that name would capture them); other names
+    # of the model (keep, edit, whole, ...) are never referred to by generated code and may be shadowed by locals
     RESERVED = RESERVED_COMMON | set("""str res Ok Raise tokens int_of re_search isspace cfg_list EditRules
-        TAB whole gline gstruct gprob edit keep min_length max_length terminal_set regexes""".split())
+        forallb existsb filter""".split())
 
     def check_name(self, node, name):
         # the parameters min_length / max_length / terminal_set shadow the projections of the model's config record
@@ -1173,6 +1358,11 @@ class EditTr(Tr):
             return "Raise"
         self.fail(node, "an exception cannot be represented in the result of this function")
 
+    def list_type_of(self, node, ety):
+        if ety == STR:
+            return STRS
+        self.fail(node, "no list type for elements of type %s" % ety)
+
     def fall_off(self):
         if self.spec.get("falls_to"):
             return "Ok %s" % self.spec["falls_to"]
@@ -1200,6 +1390,35 @@ class EditTr(Tr):
         if isinstance(e, ast.Constant) and type(e.value) is str:
             try:
                 return str_lit(e.value), STR
+            except TranslateError as err:
+                self.fail(e, str(err))
+        if isinstance(e, ast.JoinedStr):
+            # f"..{s}..": the concatenation of its parts; {s} / {s!s} of a string is the string itself
+            parts = []
+            for v in e.values:
+                if isinstance(v, ast.Constant) and type(v.value) is str:
+                    try:
+                        parts.append(str_lit(v.value))
+                    except TranslateError as err:
+                        self.fail(e, str(err))
+                elif isinstance(v, ast.FormattedValue) and v.format_spec is None and v.conversion in (-1, 115):
+                    t, ty = self.expr(v.value, env)
+                    if ty != STR:
+                        self.fail(v, "an f-string field of type %s (only strings are supported)" % ty)
+                    parts.append(_paren(t))
+                else:
+                    self.fail(e, "unsupported f-string part")
+            if not parts:
+                return "(@nil N)", STR
+            text = parts[0]
+            for p in parts[1:]:
+                text = "%s ++ %s" % (_paren(text), _paren(p))
+            return text, STR
+        if isinstance(e, (ast.Tuple, ast.List)) and e.elts and all(
+                isinstance(x, ast.Constant) and type(x.value) is str for x in e.elts):
+            # a literal collection of strings, used with `in`
+            try:
+                return "[" + "; ".join(str_lit(x.value) for x in e.elts) + "]", STRS
             except TranslateError as err:
                 self.fail(e, str(err))
         if isinstance(e, ast.Call):
@@ -1261,13 +1480,13 @@ class EditTr(Tr):
                     if ta != ty:
                         self.fail(a, "argument %r has type %s, expected %s" % (n, ta, ty))
                     args.append(_paren(t))
-                call = "%s %s" % (spec["coq"], " ".join(args))
+                call = "%s %s %s" % (spec["coq"], self.CTX_ARGS, " ".join(args))
                 if spec["ret"] == RES:
                     var = self.gensym("res")
                     self.pending.append((var, call, "res"))
                     return var, STR
                 return call, spec["ret"]
-            self.fail(e, "unsupported call")
+            return self.common_expr(e, env)     # all(..) / any(..) over a generator, else refused there
         if isinstance(e, ast.Subscript):
             if not isinstance(e.ctx, ast.Load):
                 self.fail(e, "unsupported use of a subscript")
@@ -1313,13 +1532,15 @@ From Coq Require Import List Arith NArith Bool.
 From Pcfg Require Import KernelRt SmallRt EditRules.
 Import ListNotations.
 
-Section Edit.
-(* Python's re.search for the user's regexes (the model's oracle) and str.isspace *)
-Context (re_search : str -> str -> bool) (isspace : N -> bool).
-(* the value of a subscript that raises in Python *)
-Context (undef_str : str).
+(* Parameters of every generated definition (all explicit, used or not, so that the signatures
+   do not depend on the current source):
+     re_search   Python's re.search for the user's regexes (the model's oracle)
+     isspace     str.isspace
+     undef_str   the value of a subscript that raises in Python *)
 
 """
+EditTr.CTX_BINDERS = "(re_search : str -> str -> bool) (isspace : N -> bool) (undef_str : str)"
+EditTr.CTX_ARGS = "re_search isspace undef_str"
 
 EDIT_SPECS = [
     dict(py="check_regex", coq="py_check_regex", params=[("grammar", STR), ("grammar_regex", STRS)], ret=STR),
@@ -1352,6 +1573,12 @@ def edit_rules_slice(path, fn):
         if mentions(st, names):
             raise TranslateError("%s:%d: edit_rules: a filter function is used outside the run of passes" % (path, st.lineno))
     last = before[-1] if before else None
+    # `grammar = open(..).read()` or `with open(..) as f: grammar = f.read()` (file I/O: not looked into)
+    if isinstance(last, ast.With) and last.body:
+        for st in last.body[:-1]:
+            if mentions(st, {"grammar"}):
+                raise TranslateError("%s:%d: edit_rules: `grammar` is used before it is read from the file" % (path, st.lineno))
+        last = last.body[-1]
     if not (isinstance(last, ast.Assign) and len(last.targets) == 1 and isinstance(last.targets[0], ast.Name)
             and last.targets[0].id == "grammar"):
         raise TranslateError("%s:%d: edit_rules: the statement before the passes does not bind `grammar`" % (path, fn.lineno))
@@ -1399,7 +1626,7 @@ def render_edit(repo=None):
     sl = edit_rules_slice(path, fn)
     tr.extra_params = [("grammar", STR)]
     parts.append(tr.translate(sl))
-    return EDIT_HEAD % rel + "\n".join(parts) + "\nEnd Edit.\n"
+    return EDIT_HEAD % rel + "\n".join(parts)
 
 
 # ====================================================================== probs
@@ -1428,6 +1655,16 @@ class ProbsTr(Tr):
         if ty == PAIR:
             return "undef_pair"
         self.fail(node, "no undefined value of type %s" % ty)
+
+    def pair_types(self, node, ety):
+        if ety == PAIR:
+            return (KEY, NUM)
+        self.fail(node, "an element of type %s cannot be unpacked" % ety)
+
+    def list_type_of(self, node, ety):
+        if ety == PAIR:
+            return CNT
+        self.fail(node, "no list type for elements of type %s" % ety)
 
     def is_fresh_value(self, v):
         return self.method_call(v, "most_common") is not None
@@ -1467,7 +1704,7 @@ class ProbsTr(Tr):
                 if tv != NUMS:
                     self.fail(e, "sum of a %s" % tv)
                 return "py_sum %s" % _paren(v), NUM
-            self.fail(e, "unsupported call")
+            return self.common_expr(e, env)     # all(..) / any(..) over a generator, else refused there
         if isinstance(e, ast.Tuple):
             if len(e.elts) != 2:
                 self.fail(e, "only pairs (value, number) are supported")
@@ -1512,7 +1749,7 @@ class ProbsTr(Tr):
                 args.append(_paren(t))
             # the callee has been translated: it returns None and (mutation of a parameter being outside the
             # subset) changes nothing
-            return self.line(ind, "let _ := %s %s in" % (spec["coq"], " ".join(args)), s)
+            return self.line(ind, "let _ := %s %s %s in" % (spec["coq"], self.CTX_ARGS, " ".join(args)), s)
         return None
 
 
@@ -1526,14 +1763,15 @@ From Coq Require Import List Arith Bool.
 From Pcfg Require Import KernelRt SmallRt Counters.
 Import ListNotations.
 
-Section Probs.
-Context {O : numops}.
-(* Python's * on numbers (the model has no multiplication: a source that multiplies is not the model) *)
-Context (nmul : num O -> num O -> num O).
-(* the value of a subscript that raises in Python *)
-Context (undef_pair : TextFile.str * num O).
+(* Parameters of every generated definition (all explicit, used or not, so that the signatures
+   do not depend on the current source):
+     O           the number structure (Counters.numops)
+     nmul        Python's * on numbers (the model has no multiplication: a source that multiplies is not the model)
+     undef_pair  the value of a subscript that raises in Python *)
 
 """
+ProbsTr.CTX_BINDERS = "{O : numops} (nmul : num O -> num O -> num O) (undef_pair : TextFile.str * num O)"
+ProbsTr.CTX_ARGS = "nmul undef_pair"
 
 PROBS_SPECS = [
     dict(py="apply_probability_smoothing", coq="py_apply_probability_smoothing", params=[("counter", CNT)], ret=UNIT,
@@ -1554,7 +1792,7 @@ def render_probs(repo=None):
             raise TranslateError("%s: %s not found" % (path, spec["py"]))
         parts.append(ProbsTr(path, rel, "", fn, spec, done).translate())
         done[spec["py"]] = spec
-    return PROBS_HEAD % rel + "\n".join(parts) + "\nEnd Probs.\n"
+    return PROBS_HEAD % rel + "\n".join(parts)
 
 
 # ====================================================================== shared file handling
